@@ -665,7 +665,7 @@ fn gen_sweep(g: &mut Gen, n: u64) {
 }
 
 fn generate(tier: Tier, rng: &mut Rng, em: &mut Emit) {
-    let (n, states, sweep) = if tier == Tier::Quick { (12, 3, 6000) } else { (60, 8, 150_000) };
+    let (n, states, sweep) = if tier == Tier::Quick { (24, 3, 10_000) } else { (30, 4, 50_000) };
     let mut g = Gen { rng, em, states };
     gen_addsub(&mut g, n);
     gen_mov(&mut g, n);
